@@ -83,7 +83,7 @@ let parse_outs (toks : string list) : outs =
         | _ -> raise (Bad ("bits " ^ t))
       end
       else match String.index_opt t '=' with
-        | Some k when (t.[0] = 'A' || t.[0] = 'Z' || t.[0] = 'F' || t.[0] = 'S') ->
+        | Some k when (t.[0] = 'A' || t.[0] = 'Z' || t.[0] = 'F' || t.[0] = 'S' || t.[0] = 'X') ->
             let key = String.sub t 0 k in
             Hashtbl.replace o.answers key (String.sub t (k + 1) (String.length t - k - 1));
             o.order <- key :: o.order
@@ -113,7 +113,7 @@ let pr_failures (l : failure list) : string = "[" ^ String.concat "," (List.map 
 let mk_msg (o : outs) (tok : string) (idx : int) : kind * msg =
   if String.length tok < 3 then raise (Bad ("traffic " ^ tok));
   let k = (match tok.[1] with 'q' -> Req | 's' -> Res | _ -> raise (Bad ("traffic " ^ tok))) in
-  let api = tok.[2] = '1' in
+  let api = tok.[2] <> '0' in
   let (conds, hits) = (try Hashtbl.find o.bits idx with Not_found -> raise (Bad ("no bits for " ^ string_of_int idx))) in
   (k, { mid = nat_of_int idx; mapi = api;
         mcond = (fun f -> List.mem (int_of_nat f) conds);
@@ -125,6 +125,18 @@ let label_of (o : outs) (tok : string) (idx : int) : label =
   | "R" -> Reset | "Rq" -> ResetK Req | "Rs" -> ResetK Res
   | _ when tok.[0] = 'T' -> let (k, m) = mk_msg o tok idx in Traffic (k, m)
   | _ -> raise (Bad ("op " ^ tok))
+
+(* one op token -> the labels of the model history.  An exchange with the
+   proxy's own API through the proxy (A<Q|R|C><route>) is: its request (API
+   traffic), what the API handler does, its response (API traffic). *)
+let labels_of (o : outs) (tok : string) (idx : int) : label list =
+  let api_msg = { mid = nat_of_int idx; mapi = true; mcond = (fun _ -> false); mhit = (fun _ -> true) } in
+  if String.length tok = 3 && tok.[0] = 'A' then begin
+    let inner = (match tok.[1] with 'Q' -> [Query] | 'R' -> [Reset] | 'C' -> [] | _ -> raise (Bad ("op " ^ tok))) in
+    [Traffic (Req, api_msg)] @ inner @ [Traffic (Res, api_msg)]
+  end
+  else if String.length tok > 3 && (String.sub tok 0 3 = "XR:" || String.sub tok 0 3 = "XQ:") then [Refused]
+  else [label_of o tok idx]
 
 let is_query = function Query | QueryK _ -> true | _ -> false
 let is_reset = function Reset | ResetK _ -> true | _ -> false
@@ -173,10 +185,21 @@ let judge_seq (ins : string list) (outs : string list) : verdict =
       else if o.cfgst <> "ok" then VDisagree ("configuration-rejected:" ^ o.cfgst)
       else begin
         let c = parse_tree tree in
-        let labels = List.mapi (fun i t -> (i + 2, label_of o t (i + 2))) ops in
+        let labels = List.concat (List.mapi (fun i t -> List.map (fun l -> (i + 2, l)) (labels_of o t (i + 2))) ops) in
         let h = List.map snd labels in
+        (* status of refused calls (405) and of GET /configure through the proxy (200) *)
+        let bad_status = List.concat (List.mapi (fun i t ->
+            let idx = i + 2 in
+            let want = if String.length t > 3 && t.[0] = 'X' then Some ("405", "refused_call_status")
+              else if String.length t = 3 && t.[0] = 'A' && t.[1] = 'C' then Some ("200", "api_call_status") else None in
+            match want with
+            | None -> []
+            | Some (w, clause) ->
+                let got = (try Hashtbl.find o.answers ("X" ^ string_of_int idx) with Not_found -> "missing") in
+                if got = w then [] else [(clause, Printf.sprintf "op %d %s answered %s, want %s" idx t got w)]) ops) in
         match flag_err o with
         | Some e -> VDisagree ("modifier-returned-error:" ^ e)
+        | None when bad_status <> [] -> let (c, d) = List.hd bad_status in VPropfail (c, d)
         | None ->
           (* reset handler status *)
           let bad_reset = List.find_opt (fun (p, l) -> is_reset l &&
@@ -202,7 +225,12 @@ let judge_seq (ins : string list) (outs : string list) : verdict =
                   let k = (match first_diff O want obs with Some k -> int_of_nat k | None -> 0) in
                   let (qp, _) = List.nth qs (min k (List.length qs - 1)) in
                   let w = (try List.nth want k with _ -> []) and g = (try List.nth obs k with _ -> []) in
-                  let clause = classify labels qp w g in
+                  (* a refused reset that was carried out all the same? *)
+                  let h_refused_done = List.concat (List.mapi (fun i t ->
+                      if String.length t > 3 && String.sub t 0 3 = "XR:" then [Reset] else labels_of o t (i + 2)) ops) in
+                  let clause =
+                    if List.mem Refused h && c13_ok c h_refused_done obs then "refused_call_no_effect"
+                    else classify labels qp w g in
                   let pin = if model_outputs pinned c h = obs then " (answers are those of the model of the pinned, unrepaired code)" else "" in
                   VPropfail (clause, Printf.sprintf "query-at-op=%d want=%s got=%s%s" qp (pr_failures w) (pr_failures g) pin)
                 end
@@ -402,7 +430,7 @@ let judge_stress (ins : string list) (outs : string list) : verdict =
 let judge _name ins outs =
   try
     match ins with
-    | ("SEQ" | "DIR") :: _ -> judge_seq ins outs
+    | ("SEQ" | "SEQM" | "SEQN" | "DIR") :: _ -> judge_seq ins outs
     | ("CONC" | "CONCB") :: _ -> judge_conc ins outs
     | ("GATEM" | "GATEB") :: _ -> judge_gate ins outs
     | ("STRESSM" | "STRESSB") :: _ -> judge_stress ins outs
